@@ -77,7 +77,9 @@ def gen_cases(spec):
     seeds = subm.Seeds(spec["case_seed"])
     shapes = seeds.shapes()
     seeds.rng.shuffle(shapes)
-    shapes = shapes[: spec["nshape"]]
+    # events with many tags and delegated ones are in every run; the rest is sampled
+    pinned = [x for x in shapes if x[0] in ("many-tags", "delegated")]
+    shapes = pinned + [x for x in shapes if x not in pinned][: max(0, spec["nshape"] - len(pinned))]
     cases = []
     for sl, kw in shapes:
         for label, raw, tk, consistent in subm.corruptions(seeds, kw):
